@@ -205,7 +205,7 @@ def validate_path(env, entry, cfg, trace, vals, compare_result=True):
     P = env.P
     for i, (cs, cc) in enumerate(zip(trace.cons, out["cons"])):
         for a, b in zip(cs, cc):
-            ca = {k: (H.model_eval_int(m, T(v)) % P) for k, v in a.items()}
+            ca = {k: ((v if type(v) is int else H.model_eval_int(m, T(v))) % P) for k, v in a.items()}
             cb = {k: v % P for k, v in b.items()}
             if {k: v for k, v in ca.items() if v} != {k: v for k, v in cb.items() if v}:
                 return False, "constraint %d differs on %s" % (i, inputs), inputs
